@@ -517,6 +517,39 @@ func (c10) Run(tp *Tape, opt RunOpt) *RunOut {
 					}
 				}
 			}
+			// a cancel may return true only if it takes effect while the future is still running, and
+			// future-cancelled? is true from that point on. So a future-cancelled? = false invoked after the
+			// completion had been observed (an outcome-returning deref returned, or the body's thread ended)
+			// proves that the future completed without having been cancelled: no cancel may return true.
+			for _, c := range cancels {
+				if c.res != "true" {
+					continue
+				}
+				for _, q := range cancelleds {
+					if q.res != "false" {
+						continue
+					}
+					ev := ""
+					if bodyEnd[i] != 0 && bodyEnd[i] < q.inv {
+						ev = "the body's thread had ended at " + strconv.FormatUint(bodyEnd[i], 10)
+					}
+					for _, d := range outcomes {
+						if d.ret < q.inv {
+							ev = "a deref had returned the outcome: " + line(d)
+						}
+					}
+					if ev != "" {
+						viol("O6-cancel-completed", "cancel-true-although-uncancelled-completion-was-observed",
+							"future-cancel returned true although the future had completed without having been cancelled ("+ev+", then "+line(q)+"): "+line(c))
+					}
+				}
+				// likewise a cancel that returned false saw a completed, uncancelled future: no cancel returns true
+				for _, c2 := range cancels {
+					if c2.res == "false" {
+						viol("O6-cancel-completed", "cancel-answers-disagree", "one future-cancel returned false (completed, not cancelled) and another returned true:\n  "+line(c2)+"\n  "+line(c))
+					}
+				}
+			}
 			for _, q := range cancelleds {
 				if q.res != "true" {
 					continue
